@@ -869,6 +869,17 @@ def gen_code_for_conv(to_type, node, code, codegen):
         code.add((f'conv{from_char}{to_char}',))
 
 
+def gen_code_for_cond(cond, code, codegen):
+    # Leaves an INTEGER on the stack which is zero exactly when the
+    # (numeric) condition is zero. Converting the condition itself to
+    # INTEGER would round 0.4 down to "false" and overflow on large
+    # values.
+    codegen.gen_code_for_node(cond, code)
+    if cond.type != expr.Type.INTEGER:
+        code.add((f'push{cond.type.type_char}', 0))
+        code.add(('cmp',))
+
+
 def gen_code_for_args(args, param_types, code, codegen):
     for arg, param_type in zip(args, param_types):
         if isinstance(arg, expr.Lvalue):
@@ -1429,18 +1440,18 @@ def gen_loop(node, code, codegen):
 
     code.add(('_label', do_label))
     if node.kind.startswith('do_'):
-        codegen.gen_code_for_node(node.cond, code)
-        gen_code_for_conv(expr.Type.INTEGER, node.cond, code, codegen)
+        gen_code_for_cond(node.cond, code, codegen)
         if node.kind == 'do_until':
-            code.add(('not',))
+            # logical (not bitwise) negation: -1 if zero, else 0
+            code.add(('eq',))
         code.add(('jz', loop_label))
 
     gen_code_for_block(node.body, code, codegen)
 
     if node.kind.startswith('loop_'):
-        codegen.gen_code_for_node(node.cond, code)
+        gen_code_for_cond(node.cond, code, codegen)
         if node.kind == 'loop_while':
-            code.add(('not',))
+            code.add(('eq',))
         code.add(('jz', do_label))
     else:
         code.add(('jmp', do_label))
@@ -1617,8 +1628,7 @@ def gen_if_block(node, code, codegen):
     for cond, body in node.if_blocks:
         else_label = codegen.get_label('else')
 
-        codegen.gen_code_for_node(cond, code)
-        gen_code_for_conv(expr.Type.INTEGER, cond, code, codegen)
+        gen_code_for_cond(cond, code, codegen)
         code.add(('jz', else_label))
 
         if cur_else_stmt and codegen.debug_info_enabled:
@@ -1651,8 +1661,7 @@ def gen_if_stmt(node, code, codegen):
     else_label = codegen.get_label('else')
     endif_label = codegen.get_label('endif')
 
-    codegen.gen_code_for_node(node.cond, code)
-    gen_code_for_conv(expr.Type.INTEGER, node.cond, code, codegen)
+    gen_code_for_cond(node.cond, code, codegen)
     code.add(('jz', else_label))
     gen_code_for_block(node.then_stmts, code, codegen)
     code.add(('jmp', endif_label))
@@ -1948,8 +1957,7 @@ def gen_while_block(node, code, codegen):
     wend_label = codegen.get_label('wend')
 
     code.add(('_label', check_label))
-    codegen.gen_code_for_node(node.cond, code)
-    gen_code_for_conv(expr.Type.INTEGER, node.cond, code, codegen)
+    gen_code_for_cond(node.cond, code, codegen)
     code.add(('jz', wend_label))
 
     code.add(('_label', body_label))
